@@ -167,6 +167,11 @@ func verifC12(tlsActive bool) {
 		}
 		verifAssert(same, "C12.same-capabilities-after-failed-starttls")
 	}
+	if probe == 1 && !tlsActive && cfg.reqtls {
+		// REQUIRETLS enabled by the configuration but not advertised (no TLS):
+		// the statement fixes neither acceptance nor refusal - not judged
+		return
+	}
 	enabled := []bool{cfg.utf8, cfg.reqtls, cfg.binmime, cfg.dsn, cfg.dsn, true, cfg.tls == 1, cfg.dsn, cfg.dsn, cfg.rrvs, cfg.rrvs, cfg.tls == 1, false, false, false}[probe]
 	if probe >= 12 {
 		// malformed use of a gated parameter: never accepted, enabled or not
@@ -204,4 +209,69 @@ func verif_C12_helo() {
 	reps, wf := verifParseReplies(vc.out)
 	verifAssert(wf && len(reps) == 2 && reps[1].code == 250 && len(reps[1].lines) == 1, "C12.helo-lists-nothing")
 	verifReach("C12.helo")
+}
+
+// verif_C12_regreet: the capability list is a function of the configuration
+// and the TLS state, not of the greetings that came before. After HELO, after
+// an earlier EHLO, or after both, an EHLO lists exactly what refCaps gives -
+// and HELO in any position lists nothing -, and AUTH is then accepted exactly
+// when that list offers it.
+func verif_C12_regreet() {
+	var cfg vconfig
+	cfg.utf8, cfg.dsn = nondetBool(), nondetBool()
+	if nondetBool() {
+		cfg.size = 1000
+	}
+	if nondetBool() {
+		cfg.tls = 1
+	}
+	cfg.insecureAuth, cfg.authBackend = nondetBool(), nondetBool()
+	s, be, lg := verifConfigServer(cfg)
+	be.saslFn = func(_ *vsession, mech string) (sasl.Server, error) { return &vsasl{failAt: -1}, nil }
+	seqs := [][]string{{"HELO", "EHLO"}, {"EHLO", "EHLO"}, {"EHLO", "HELO", "EHLO"}, {"HELO", "HELO", "EHLO"}, {"EHLO", "HELO"}}
+	seq := seqs[verifChoice(len(seqs))]
+	in := ""
+	for i, g := range seq {
+		in += g + " c" + strconv.Itoa(i) + "\r\n"
+	}
+	in += "AUTH XVERIF =\r\nNOOP\r\n"
+	vc, _, _ := verifServe(s, []byte(in), io.EOF)
+	reps, wf := verifParseReplies(vc.out)
+	verifAssert(wf && len(reps) == len(seq)+3 && lg.lines == 0, "C12.regreet-replies")
+	if !wf || len(reps) != len(seq)+3 {
+		return
+	}
+	want := refCaps(cfg)
+	offered := false
+	for i, g := range seq {
+		r := reps[1+i]
+		verifAssert(r.code == 250 && len(r.lines) >= 1 && strings.HasSuffix(r.lines[0], "Hello c"+strconv.Itoa(i)), "C12.regreet-250")
+		if g == "HELO" {
+			verifAssert(len(r.lines) == 1, "C12.regreet-helo-lists-nothing")
+			offered = false
+			continue
+		}
+		got := map[string]bool{}
+		for _, l := range r.lines[1:] {
+			verifAssert(!got[l], "C12.regreet-no-duplicate-capability")
+			got[l] = true
+			verifAssert(want[l], "C12.regreet-no-capability-beyond-configuration")
+		}
+		for l := range want {
+			verifAssert(got[l], "C12.regreet-every-configured-capability-advertised")
+		}
+		offered = got["AUTH PLAIN XVERIF"]
+	}
+	ar := reps[len(seq)+1]
+	verifObserve("c12regreet", len(seq), offered, ar.code)
+	if seq[len(seq)-1] == "EHLO" {
+		if offered {
+			verifReach("C12.regreet-auth-offered")
+			verifAssert(ar.code == 235, "C12.regreet-advertised-auth-accepted")
+		} else {
+			verifReach("C12.regreet-auth-not-offered")
+			verifAssert(ar.code/100 == 5, "C12.regreet-unadvertised-auth-refused")
+		}
+	}
+	verifAssert(reps[len(seq)+2].code == 250, "C12.regreet-command-mode")
 }
